@@ -304,7 +304,9 @@ func listingWhileDeleting(seed int64, r int) J {
 		return J{"ev": "conc", "case": 3000000, "i": r, "op": "ListingWhileDeleting", "writers": 0, "errs": 1, "final": "other"}
 	}
 	database := db.NewDatabaseWithStorage(st)
-	stable := db.NewEntity("stable", []byte{1, 2, 3}, nil)
+	// the untouched entity is listed after the churning ones in one round and before them in the next (the keys are listed
+	// in the order of their file names: what happens when the LAST key has vanished is a case of its own)
+	stable := db.NewEntity([]string{"stable", "a-stable"}[(r/4)%2], []byte{1, 2, 3}, nil)
 	database.SaveEntity(stable)
 	stop := make(chan struct{})
 	var wg sync.WaitGroup
@@ -336,7 +338,7 @@ func listingWhileDeleting(seed int64, r int) J {
 		}
 		found := false
 		for _, e := range es {
-			if e.Name == "stable" {
+			if e.Name == stable.Name {
 				found = true
 			}
 		}
